@@ -576,6 +576,179 @@ impl Scenario for ChClose {
 }
 
 // -----------------------------------------------------------------------------------------
+// C02 (E2 part): published messages on the wire of a live connection under backpressure
+
+pub struct PubWire;
+
+fn pubwire_body(chan: u16, k: usize, len: usize) -> Vec<u8> {
+    (0..len).map(|i| ((i * 7 + k * 31 + chan as usize * 101) % 251) as u8).collect()
+}
+
+fn pubwire_props(k: usize) -> amiquip::AmqpProperties {
+    match k % 3 {
+        0 => amiquip::AmqpProperties::default(),
+        1 => amiquip::AmqpProperties::default().with_content_type("text/plain".into()).with_delivery_mode(2),
+        _ => amiquip::AmqpProperties::default().with_message_id(format!("m{}", k)).with_priority(9).with_timestamp(1234),
+    }
+}
+
+const PUBWIRE_LENS: [usize; 6] = [0, 1, 4088, 4089, 9000, 3];
+
+impl Scenario for PubWire {
+    fn name(&self) -> &'static str {
+        "pubwire"
+    }
+    fn property(&self) -> &'static str {
+        "C02"
+    }
+    fn variants(&self, _tier: &str) -> Vec<Value> {
+        vec![json!({"stall": null}), json!({"stall": 400}), json!({"stall": 5000})]
+    }
+    fn bound(&self, tier: &str, _p: &Value) -> usize {
+        if tier == "thorough" {
+            3
+        } else {
+            2
+        }
+    }
+    fn describe(&self) -> String {
+        "two threads publish six messages each (bodies of 0, 1, frame_max-8, frame_max-7, 9000 and 3 bytes with frame_max 4096; different exchanges, routing keys, mandatory/immediate flags and properties) on channels 1 and 2 of a live connection whose transport accepts writes in part and stalls (after 400 or 5000 bytes, until granted); oracle on the bytes the transport accepted: per channel, each publish is a Basic.Publish with exactly its exchange, routing key and flags, one content header with the body length and its properties, then body frames of at most frame_max bytes each whose payloads concatenate to the body (none for the empty body), contiguous and in publish order".into()
+    }
+    fn build(&self, p: &Value) -> Built {
+        let mut hs = Handshake::default();
+        hs.tune = (2047, 4096, 0);
+        let broker = StdBroker::new(hs);
+        let mut cfg = EnvConfig::default();
+        cfg.write_cuts = true;
+        cfg.write_cut_limit = 2;
+        cfg.grant_menu = vec![1];
+        if let Some(n) = p["stall"].as_u64() {
+            cfg.stall_after = Some(n as usize);
+        }
+        Built {
+            broker: Box::new(broker),
+            cfg,
+            root: Box::new(move |ctx: Ctx| {
+                let mut conn = match open(&ctx, ConnectionOptions::default().heartbeat(0), ConnectionTuning::default().mem_channel_bound(2)) {
+                    Ok(c) => c,
+                    Err(e) => {
+                        ctx.log(format!("open -> Err({})", err_name(&e)));
+                        return;
+                    }
+                };
+                let mut actors = Vec::new();
+                for chan in 1..=2u16 {
+                    let ch = conn.open_channel(Some(chan)).expect("open_channel");
+                    actors.push(ctx.spawn(&format!("w{}", chan), move |ctx| {
+                        for (k, len) in PUBWIRE_LENS.iter().enumerate() {
+                            let body = pubwire_body(chan, k, *len);
+                            let publish = Publish { body: &body, routing_key: format!("rk{}", k), mandatory: k % 2 == 1, immediate: k % 4 >= 2, properties: pubwire_props(k) };
+                            let r = ch.basic_publish(format!("ex{}", chan), publish);
+                            ctx.log(format!("publish{} -> {}", k, res(&r)));
+                        }
+                        let r = ch.close();
+                        ctx.log(format!("chclose -> {}", res(&r)));
+                    }));
+                }
+                for a in actors {
+                    ctx.join(a);
+                }
+                let r = conn.close();
+                ctx.log(format!("close -> {}", res(&r)));
+            }),
+        }
+    }
+    fn check(&self, _p: &Value, o: &Outcome, _w: &World) -> Vec<(String, String)> {
+        use amq_protocol::frame::AMQPFrame as F;
+        let mut v = Vec::new();
+        let (envs, rest) = wire_frames(o);
+        if rest != 0 {
+            v.push(("pubwire:partial-frame".into(), format!("{} trailing bytes", rest)));
+        }
+        for chan in 1..=2u16 {
+            let log = o.logs.get(&format!("w{}", chan)).cloned().unwrap_or_default();
+            if log.len() != PUBWIRE_LENS.len() + 1 || log.iter().any(|l| !l.ends_with("-> Ok")) {
+                v.push(("pubwire:publisher-failed".into(), format!("publisher {} log {:?}", chan, log)));
+                continue;
+            }
+            let frames: Vec<&vh::wire::Env> = envs.iter().filter(|e| e.chan == chan).collect();
+            let mut i = 0usize;
+            let mut fail = |what: String| v.push(("pubwire:message-not-as-published".into(), format!("channel {}: {}", chan, what)));
+            if !frames.first().map(|e| is_method(e, 20, 10)).unwrap_or(false) {
+                fail("first frame is not Channel.Open".into());
+                continue;
+            }
+            i += 1;
+            let mut ok = true;
+            for (k, len) in PUBWIRE_LENS.iter().enumerate() {
+                let body = pubwire_body(chan, k, *len);
+                match frames.get(i).and_then(|e| e.decode()) {
+                    Some(F::Method(_, AMQPClass::Basic(basic::AMQPMethod::Publish(m)))) => {
+                        if m.exchange != format!("ex{}", chan) || m.routing_key != format!("rk{}", k) || m.mandatory != (k % 2 == 1) || m.immediate != (k % 4 >= 2) {
+                            fail(format!("publish {}: method carries {:?}", k, m));
+                            ok = false;
+                            break;
+                        }
+                    }
+                    other => {
+                        fail(format!("publish {}: expected Basic.Publish at frame {}, found {:?}", k, i, other.map(|f| vh::wire::brief(&f))));
+                        ok = false;
+                        break;
+                    }
+                }
+                i += 1;
+                match frames.get(i).and_then(|e| e.decode()) {
+                    Some(F::Header(_, class, h)) => {
+                        if class != 60 || h.body_size != *len as u64 || format!("{:?}", h.properties) != format!("{:?}", pubwire_props(k)) {
+                            fail(format!("publish {}: header says class {} size {} properties {:?}; published {} bytes with {:?}", k, class, h.body_size, h.properties, len, pubwire_props(k)));
+                            ok = false;
+                            break;
+                        }
+                    }
+                    other => {
+                        fail(format!("publish {}: expected a content header at frame {}, found {:?}", k, i, other.map(|f| vh::wire::brief(&f))));
+                        ok = false;
+                        break;
+                    }
+                }
+                i += 1;
+                let mut got: Vec<u8> = Vec::new();
+                while let Some(e) = frames.get(i) {
+                    if e.ty != 3 {
+                        break;
+                    }
+                    if e.wire_len() > 4096 {
+                        fail(format!("publish {}: body frame of {} bytes on the wire, frame_max is 4096", k, e.wire_len()));
+                        ok = false;
+                    }
+                    if e.payload.is_empty() {
+                        fail(format!("publish {}: empty body frame", k));
+                        ok = false;
+                    }
+                    got.extend_from_slice(&e.payload);
+                    i += 1;
+                }
+                if got != body {
+                    fail(format!("publish {}: body frames carry {} bytes that {} the {} published", k, got.len(), if got.len() == body.len() { "differ from" } else { "are not" }, body.len()));
+                    ok = false;
+                }
+                if !ok {
+                    break;
+                }
+            }
+            if ok && !(frames.get(i).map(|e| is_method(e, 20, 40)).unwrap_or(false) && i + 1 == frames.len()) {
+                fail(format!("after the last message: expected Channel.Close and nothing else, found {} more frames", frames.len() - i));
+            }
+        }
+        let main = o.logs.get("main").cloned().unwrap_or_default();
+        if main != vec!["close -> Ok".to_string()] {
+            v.push(("pubwire:close".into(), format!("main log {:?}", main)));
+        }
+        v
+    }
+}
+
+// -----------------------------------------------------------------------------------------
 // C10 (E2 part): channel ids through the live I/O thread
 
 pub struct Ids;
